@@ -69,6 +69,11 @@ fn build_operand(r: &mut Rng, out: &mut String, slot: usize, keys: &[u64], pool:
             }
             Operand { slot, heavy: true, empty: false }
         }
+        92..=93 => {
+            // dozens of tiny chunks (chunk-count ordering of the operands, merges over long container lists)
+            writeln!(out, "from_iter {}{}", b, super::common::many_chunk_values(r)).unwrap();
+            Operand { slot, heavy: false, empty: false }
+        }
         87..=91 => {
             // a FULL chunk (65536 values), or one a few values short of it, or one of two halves that are full only
             // together (evens / odds): xor and sub then start from / reach a completely full running chunk
